@@ -212,14 +212,16 @@ def parse_tla_value(s: str):
 
 def extract_tagged(output: str, tag: str) -> list:
     """All tuples <<"TAG", ...>> that TLC printed (PrintT), parsed."""
+    # TLC prints a short tuple on one line (`<<"TAG", 1, ...>>`) and wraps a long one over several lines with a blank after the
+    # opening bracket (`<< "TAG",` newline ...): both forms are recognised
     res = []
-    needle = '<<"' + tag + '"'
+    pat = re.compile(r'<<\s*"' + re.escape(tag) + '"')
     i = 0
     while True:
-        j = output.find(needle, i)
-        if j < 0:
+        m = pat.search(output, i)
+        if m is None:
             return res
-        txt, i = split_toplevel(output, j)
+        txt, i = split_toplevel(output, m.start())
         res.append(parse_tla_value(txt))
 
 
